@@ -549,7 +549,7 @@ def stepAct (s : State) (a : Nat) : Option (State × Obs) :=
           | _ => true
         if ready then
           match jb.kind with
-          | .after op _ _ => some (s.goto a (.begin (.user op) (.jobBodyDone j c k)), .silent)
+          | .after op _ _ => some ((s.setJob j { jb with begun := true }).goto a (.begin (.user op) (.jobBodyDone j c k)), .silent)
           | .slot _ _ => some (s.goto a (.jobSignal j c k), .silent)
           | .susp _ _ _ _ => some (s.goto a (.jobSignal j c k), .silent)
           | _ => some (s.goto a (.jobEnd j c k), .silent)
@@ -610,7 +610,7 @@ def stepAct (s : State) (a : Nat) : Option (State × Obs) :=
       match s.jobs[j]? with
       | none => none
       | some jb =>
-        let s1 := s.setJob j { jb with ph := .done }
+        let s1 := s.setJob j { jb with ph := .done, ended := true }     -- the job box is dropped: whatever it was doing is over
         match jb.kind with
         | .erasedBg owner _ =>
           if s.readyHeld owner then none
